@@ -29,7 +29,9 @@ def origin_url(name: str, explicit_default_port: bool = False, upper: bool = Fal
 
 
 class RedirServer:
-    def __init__(self, routes: dict[tuple[str, str], dict[str, typing.Any]], fail_first: int = 0):
+    def __init__(self, routes: dict[tuple[str, str], dict[str, typing.Any]], fail_first: int = 0, status_first: int = 0):
+        self.status_first = status_first  # the first n requests are answered '503 + Retry-After: 0' (a retried status)
+        self.status_answered = 0
         self.routes = routes
         self.log: list[dict[str, typing.Any]] = []
         self.failed: list[dict[str, typing.Any]] = []  # requests that were answered with a connection reset
@@ -67,6 +69,11 @@ class RedirServer:
         if len(self.failed) < self.fail_first:
             self.failed.append(entry)
             sc.reset()
+            return
+        if self.status_answered < self.status_first:
+            self.status_answered += 1
+            self.failed.append(entry)
+            sc.write(wire.build_response(503, "Busy", [("Retry-After", "0")], b"busy"))
             return
         self.log.append(entry)
         r = self.routes.get((origin, path))
